@@ -46,6 +46,15 @@ func c16Polluters() []c16Prog {
 	add("lib-ctor-alias-param", "导入《@样品库》\n如何改？\n\t输入型\n\t如何新建型？\n\t\t输入甲\n\t\t其计数 = 5000\n\t输出 1\n（改：样品）\n输出（新建样品：1）之计数\n")
 	add("lib-ctor-alias-list", "导入《@样品库》\n令表 = 【样品】\n以型遍历表：\n\t如何新建型？\n\t\t输入甲\n\t\t其计数 = 6000\n输出（新建样品：1）之计数\n")
 	add("lib-method-alias", "导入《@样品库》\n令型 = 样品\n定义型：\n\t其计数 = 7000\n输出（新建样品）之计数\n")
+	// the repository's HTTP types exported by a library: whatever one execution does to the
+	// objects it constructed must stay with that execution
+	add("http-resp-header-write-text", "导入《@样品库》\n令应 =（新建HTTP响应：200、“ok”）\n应之头部#“Set-Cookie” = “session=alice”\n输出应之头部\n")
+	add("http-resp-header-write-json", "导入《@样品库》\n令应 =（新建HTTP响应：200、【1，2】）\n以应之头部（写入：“X-Trace”、“p1”）\n输出应之头部\n")
+	add("http-resp-header-write-other", "导入《@样品库》\n令应 =（新建HTTP响应：201、真）\n以应之头部（写入：“X-K”、“v”）\n以应之头部（移除：“Content-Type”）\n输出应之头部\n")
+	add("http-resp-noctor-mutation", "导入《@样品库》\n令应 =（新建HTTP响应：200、“a”、【“H” = “1”】）\n以应之头部（写入：“H2”、“2”）\n应之状态码 = 500\n输出应之头部\n")
+	add("http-resp-type-write", "导入《@样品库》\nHTTP响应之头部 = 【“X” = “1”】\n")
+	add("http-resp-ctor", "导入《@样品库》\n如何新建HTTP响应？\n\t输入甲、乙\n\t其状态码 = 999\n输出（新建HTTP响应：1、“x”）之状态码\n")
+	add("http-resp-ctor-alias", "导入《@样品库》\n如何改？\n\t输入型\n\t如何新建型？\n\t\t输入甲、乙\n\t\t其状态码 = 999\n\t输出 1\n（改：HTTP响应）\n输出（新建HTTP响应：1、“x”）之状态码\n")
 	add("lib-instance-mutation", "导入《@样品库》\n令物 =（新建样品）\n以物之清单（后增：9）\n物之表#“乙” = 2\n以物（累加）\n以物（累加）\n输出物之清单\n")
 	add("lib-type-property-write", "导入《@样品库》\n样品之清单 = 【】\n")
 	add("lib-function-redefine", "导入《@样品库》\n如何取常数？\n\t输出 -1\n输出（取常数）\n")
@@ -94,6 +103,9 @@ func c16Probes() []c16Prog {
 	add("undefined-type", "输出（新建型）\n")
 	add("json-parse", "导入《@JSON》\n输出（解析JSON：“{\\\"a\\\":[1,2,{\\\"b\\\":null}],\\\"c\\\":\\\"d\\\"}”）\n")
 	add("json-generate", "导入《@JSON》\n输出（生成JSON：【“a” = 【1，2】，“b” = 空，“c” = 【=】】）\n")
+	add("http-resp-new-text", "导入《@样品库》\n令应 =（新建HTTP响应：200、“t”）\n输出【应之状态码，应之头部，应之内容】\n")
+	add("http-resp-new-json", "导入《@样品库》\n令应 =（新建HTTP响应：200、【“a” = 1】）\n输出【应之状态码，应之头部，应之内容】\n")
+	add("http-resp-new-other", "导入《@样品库》\n令应 =（新建HTTP响应：404、空）\n输出【应之状态码，应之头部，应之内容】\n")
 	add("lib-class-new", "导入《@样品库》\n令物 =（新建样品）\n输出【物之清单，物之表，物之计数，以物（累加）】\n")
 	add("lib-class-new-args", "导入《@样品库》\n令物 =（新建样品：1）\n输出物之计数\n")
 	add("lib-function", "导入《@样品库》\n输出（取常数）\n")
